@@ -98,6 +98,28 @@ PROPS["C10"] = {"units": ["object"], "kani": [], "replay": ["bounded"], "title":
     "level_text": "Proved: after the index rebuild used by sort/canonicalization the object is well formed again (every key query answers as a linear scan would). Idempotence and blindness to member order, spacing and number spelling are decided by the bounded stand-in.",
     "level_note": "as C09" + _BOUNDED_NOTE, "design_ref": "DESIGN.md §6.4"}
 
+
+# the deciding method per check (MANIFEST `technique`)
+_V = "contract-based deductive verification (Verus) of functions extracted mechanically from /repo on every run"
+_B = "; bounded stand-in (replay crate vs an independent reference, labelled bounded) for "
+for _pid, _t in {
+    "C01": _V + ": every parser function against RFC 8259 specification functions, Value::parse_in == doc" + _B + "the byte-slice / infallible entry points and termination of the main loop",
+    "C02": _V + ": value clauses of the parser contracts, Indexes and Object queries == linear scan" + _B + "the byte-slice entry point",
+    "C03": _V + ": no panic / overflow / bounds / termination side obligations of every parser function" + _B + "termination of the main loop and stack use (deep documents in child processes with a 256 KiB stack)",
+    "C04": _V + " and pure lemmas: Display for Value == compact text; doc(compact text of j) == j; parse_str == doc" + _B + "option records that print whitespace",
+    "C05": _V + ": code-map clauses (cm_begin / cm_end) of every fragment parser, final code map of Value::parse_in == doc's" + _B + "the byte-slice entry point",
+    "C06": _V + ": list-model contracts on Indexes and every Object operation incl. the removal iterators" + _B + "the assumed IndexMap layer (operation histories vs the list model)",
+    "C07": _V + ": Err branches of the parser contracts, error of Value::parse_in == doc's" + _B + "the byte-slice entry point",
+    "C08": _V + ": string_literal == RFC 8785 escaping, Value-level printer == ctext under the compact record, Display for Value" + _B + "to_string / String::from and every Unicode scalar",
+    "C09": _V + " for Object::sort and string escaping" + _B + "the UTF-16 member order, the RFC 8785 number table and Value/Object::canonicalize_with (not under contract)",
+    "C10": _V + " for the index rebuild (queryable afterwards)" + _B + "idempotence and blindness to order / spelling / spacing (canonicalize_with is not under contract)",
+    "C11": _V + ": get_fragment family, array/object IterMapped::next, the four macro-generated keyed iterators (from the macro-expanded crate)" + _B + "constructors of the keyed iterators, Traverse, TryFromJson",
+    "C12": _V + ": SmallString::parse_in == option-parametric str_run, options frame, through doc(.., options)" + _B + "the byte-slice entry point under lenient options",
+    "C13": _V + ": generic container printers == documented layout, Value-level printer, width == printed length, no line break without limits" + _B + "to_string end to end",
+    "C14": _V + ": frame contracts (Object's Eq/Ord/Hash read the entry list only)" + _B + "lawfulness of the derived order / equality / hash of values (compiler-generated) and history independence",
+}.items():
+    PROPS[_pid]["technique"] = _t
+
 NOT_APPLICABLE = {
     "C16": "serde Serializer/Deserializer plumbing: every deciding fact (derive expansion, number formatting, serde_json's shape) lives in dependencies whose behaviour would be assumed; no contract within reach decides it (DESIGN.md §7)",
     "C17": "same as C16: the deciding case analysis is inside json-number's Serialize/Deserialize; the in-repo ingredient (duplicate keys collapse through Object::insert) is covered by C06 (DESIGN.md §7)",
